@@ -367,6 +367,7 @@ GROUPS = {
     "KernelsLin": ["mergeLinearCell", "addLinearScalar", "queryStepLinear", "queryStepLog16", "queryStepLog8"],
     "KernelsHH": ["hhAddCell", "hhMergeCell", "hhMaxStep"],
     "KernelsRand": ["randNext", "logCounterStep"],
+    "KernelsPar": ["monitorStep"],
 }
 
 EXPECT_STMT = {
@@ -376,6 +377,48 @@ EXPECT_STMT = {
 }
 
 
+def translate_monitor():
+    """`parallel_add`'s exit-code monitor: body of `for i, p in enumerate(workers)` inside `while any_none`.
+    Effects are abstracted to flags: `closed` (both queues closed) and `killedAll` (every worker killed)."""
+    src, tree = _parse(os.path.join(REPO, "sketchnu", "helpers.py"))
+    fn = _func(tree, "parallel_add")
+    loops = [n for n in ast.walk(fn) if isinstance(n, ast.While)]
+    if len(loops) != 1 or ast.unparse(loops[0].test) != "any_none":
+        raise TranslateError("parallel_add: expected exactly one `while any_none:` loop")
+    w = loops[0]
+    body = [x for x in w.body]
+    # sleep(1); any_none = False; for i, p in enumerate(workers): …
+    shape = [ast.unparse(x).split("\n")[0] for x in body]
+    if len(body) != 3 or shape[0] != "sleep(1)" or shape[1] != "any_none = False" or not shape[2].startswith("for i, p in enumerate(workers)"):
+        raise TranslateError(f"monitor loop has an unexpected shape: {shape}")
+    inner = body[2].body
+    if len(inner) != 1 or not isinstance(inner[0], ast.If):
+        raise TranslateError("monitor loop body is not a single if/elif")
+    first = inner[0]
+    if ast.unparse(first.test) != "p.exitcode is None" or [ast.unparse(x) for x in first.body] != ["any_none = True"]:
+        raise TranslateError("monitor: first branch is not `if p.exitcode is None: any_none = True`")
+    if len(first.orelse) != 1 or not isinstance(first.orelse[0], ast.If) or first.orelse[0].orelse:
+        raise TranslateError("monitor: expected a single `elif` without else")
+    second = first.orelse[0]
+    if ast.unparse(second.test) != "p.exitcode != 0":
+        raise TranslateError(f"monitor: second branch tests `{ast.unparse(second.test)}`, not `p.exitcode != 0`")
+    killed_all = False
+    closed = set()
+    for st in second.body:
+        u = ast.unparse(st)
+        if isinstance(st, ast.For) and ast.unparse(st.target) == "worker" and ast.unparse(st.iter) == "workers":
+            killed_all = [ast.unparse(x) for x in st.body] == ["worker.kill()"]
+        if u in ("queue.close()", "log_queue.close()"):
+            closed.add(u)
+    c = "true" if closed == {"queue.close()", "log_queue.close()"} else "closed"
+    k = "true" if killed_all else "killedAll"
+    return ("/-- `parallel_add` — one worker's turn in the exit-code monitor (`while any_none: … for i, p in enumerate(workers)`):\n"
+            "    `isNone` = `p.exitcode is None`, `nonzero` = `p.exitcode != 0`; effects abstracted to `closed` (both queues closed)\n"
+            "    and `killedAll` (`for worker in workers: worker.kill()`) -/\n"
+            "def monitorStep (isNone nonzero : Bool) (anyNone closed killedAll : Bool) : Bool × Bool × Bool :=\n"
+            f"  if isNone = true then (true, closed, killedAll) else if nonzero = true then (anyNone, {c}, {k}) else (anyNone, closed, killedAll)\n")
+
+
 def render(group):
     """returns (text, errors)"""
     L = ["/- GENERATED by harness/kernels.py from the current /repo source — do not edit.",
@@ -383,6 +426,13 @@ def render(group):
          "namespace Sketchnu.Src", ""]
     errors = []
     for name in GROUPS[group]:
+        if name == "monitorStep":
+            try:
+                L.append(translate_monitor())
+            except TranslateError as e:
+                errors.append(f"monitorStep: {e}")
+                L.append(f"-- TRANSLATION FAILED for monitorStep: {e}\n")
+            continue
         spec = KERNELS[name]
         try:
             if name in EXPECT_STMT:
